@@ -114,8 +114,12 @@ class CatalogMachine(Machine):
                 'label_gaps': rng.chance(0.4),
                 'mask_whole_source': rng.chance(0.25),
                 'nan_pixels': rng.chance(0.3),
+                # slightly over-subtracted background: negative wings, the
+                # total Kron flux is never reached inside the largest circle
+                'oversub': rng.chance(0.2),
                 'slow_weight': rng.pick([0.2, 1.0]),
                 'pre_read': rng.pick([0, 0.2, 0.6, 1.0]),
+                'pristine_ref': rng.chance(0.6),
             }
         return {
             'aperture': rng.pick(['circle', 'ellipse', 'rect', 'annulus',
@@ -129,6 +133,7 @@ class CatalogMachine(Machine):
             'nan_pixels': rng.chance(0.3),
             'pre_read': rng.pick([0, 0.2, 0.6, 1.0]),
             'slow_weight': 1.0,
+            'pristine_ref': rng.chance(0.6),
         }
 
     def make_scene(self, rng, cfg):
@@ -136,11 +141,20 @@ class CatalogMachine(Machine):
         data = sc['data']
         g = rng.np()
         out = {}
+        clean = data.copy()      # sources are detected before pixels go bad
         if cfg.get('nan_pixels'):
             for _ in range(rng.randint(1, 3)):
                 data[rng.randrange(data.shape[0]),
                      rng.randrange(data.shape[1])] = rng.pick(
                          [np.nan, np.inf])
+            if rng.chance(0.7) and sc['srcs']:
+                # a bad pixel next to the peak of a source (inside its
+                # segment; the convolved image is finite there)
+                s0 = rng.pick(sc['srcs'])
+                yb = min(data.shape[0] - 1, max(0, int(round(s0[1]))
+                                                + rng.pick([-1, 0, 1])))
+                xb = min(data.shape[1] - 1, max(0, int(round(s0[0])) + 1))
+                data[yb, xb] = np.nan
         out['data'] = enc(data)
         err = np.abs(g.normal(1.0, 0.1, data.shape)) + 0.1
         if cfg.get('nan_pixels') and rng.chance(0.5):
@@ -152,7 +166,8 @@ class CatalogMachine(Machine):
         out['mask'] = enc(mask)
         if self.variant == 'source':
             from photutils.segmentation import detect_sources
-            d0 = np.where(np.isfinite(data), data, 0.0)
+            d0 = clean if rng.chance(0.7) else np.where(
+                np.isfinite(data), data, 0.0)
             segm = detect_sources(d0, 3.0 * max(sc['noise'], 0.5) + 2.0,
                                   npixels=rng.pick([3, 5]))
             if segm is None or segm.nlabels < 1:
@@ -181,6 +196,9 @@ class CatalogMachine(Machine):
                 mask = mask | (arr == lab)
                 out['mask'] = enc(mask)
             out['segm'] = enc(arr)
+            if cfg.get('oversub'):
+                data = data - rng.uniform(0.3, 1.2)
+                out['data'] = enc(data)
             from astropy.convolution import Gaussian2DKernel, convolve
             conv = convolve(np.where(np.isfinite(data), data, 0.0),
                             Gaussian2DKernel(1.0, x_size=3, y_size=3),
@@ -307,15 +325,31 @@ class CatalogMachine(Machine):
 
     # --- reference values ---------------------------------------------
     def _fval(self, st, p):
+        if p not in st.fvals and not st.cfg.get('pristine_ref', True):
+            # (swarm: in some runs the long-lived catalog alone is the
+            # reference - three times as many runs per hour)
+            st.fvals[p] = call(getattr, st.fresh, p)
         if p not in st.fvals:
-            v = call(getattr, st.fresh, p)
-            # null test: two independent fresh catalogs must agree
-            if st.fresh2 is None:
-                st.fresh2 = self._build(st, st.scene)
-            v2 = call(getattr, st.fresh2, p)
-            if diff(v, v2) is not None:
-                st.null_bad.add(p)
-                st.stats.probe('nondeterministic_skips')
+            # the reference value of p comes from a pristine catalog on
+            # which nothing else was ever evaluated ...
+            v = call(getattr, self._build(st, st.scene), p)
+            # ... and the long-lived never-indexed catalog, on which the
+            # properties pile up in the order the run asks for them, must
+            # agree with it: a value must not depend on what was evaluated
+            # beforehand
+            v2 = call(getattr, st.fresh, p)
+            d = diff(v, v2)
+            if d is not None:
+                v3 = call(getattr, self._build(st, st.scene), p)
+                if diff(v, v3) is not None:
+                    # not even two pristine catalogs agree: no reference
+                    st.null_bad.add(p)
+                    st.stats.probe('nondeterministic_skips')
+                else:
+                    raise Violation(
+                        'commute', p,
+                        f'cat.{p} on the never-indexed catalog depends on '
+                        f'the properties evaluated before it: {d}')
             st.fvals[p] = v
         return st.fvals[p]
 
@@ -348,6 +382,12 @@ class CatalogMachine(Machine):
                     op['arg'] = [rng.chance(0.5) for _ in range(n)]
                     op['arg'][rng.randrange(n)] = True
                 return op
+            if pend[0] == 'fluxfrac':
+                # after the full-flux radius: a smaller fraction, on the
+                # same catalog or on a relative
+                return {'op': 'phot', 'actor': rng.randrange(len(st.actors)),
+                        'method': 'fluxfrac_radius',
+                        'arg': rng.pick([0.5, 0.3, 0.9]), 'name': None}
             if st.actors[pend[1]].extras:
                 return self._gen_extra(rng, st, pend[1], replace=True)
         r = rng.random()
@@ -479,8 +519,14 @@ class CatalogMachine(Machine):
                     'overwrite': kind == 'duplicate' and rng.chance(0.7)}
         if r < 0.75:
             st.extra_counter += 1
-            return {'op': 'rename_extra', 'actor': k, 'name': rng.pick(names),
-                    'new_name': f'xr{st.extra_counter}'}
+            old = rng.pick(names)
+            new = f'xr{st.extra_counter}'
+            if rng.chance(0.2):
+                # rejected: the new name is a built-in property or taken
+                new = rng.pick(['area', 'kron_flux', 'label']
+                               + [n for n in names if n != old])
+            return {'op': 'rename_extra', 'actor': k, 'name': old,
+                    'new_name': new}
         if rng.chance(0.15):
             return {'op': 'remove_extra', 'actor': k, 'names': ['nosuch']}
         m = rng.randint(1, min(2, len(names)))
@@ -504,7 +550,8 @@ class CatalogMachine(Machine):
                     'arg': rng.pick([[2.5, 1.4], [3.0, 1.0, 2.0]]),
                     'name': name}
         return {'op': 'phot', 'actor': k, 'method': 'fluxfrac_radius',
-                'arg': rng.pick([0.5, 0.9, 1.5]), 'name': name}
+                'arg': rng.pick([0.5, 0.9, 1.0, 1.0, 0.3, 1.5]),
+                'name': name}
 
     def _gen_table(self, rng, st, k):
         a = st.actors[k]
@@ -772,6 +819,15 @@ class CatalogMachine(Machine):
         if name not in a.extras:
             raise Inapplicable('no such extra')
         out = call(a.cat.rename_extra_property, name, new)
+        if new in a.extras or new in st.props or hasattr(type(a.cat), new):
+            # the new name is not available: the call is refused and the
+            # catalog keeps the property under its old name (checked by
+            # _check_family_extras right after this step)
+            st.stats.fault('reject')
+            if not isinstance(out, Raised):
+                raise Violation('reject', 'rename_extra_property',
+                                f'rename to {new!r} accepted')
+            return
         if isinstance(out, Raised):
             raise Violation('raises', 'rename_extra_property', repr(out))
         items = [(new if k == name else k, v) for k, v in a.extras.items()]
@@ -838,6 +894,8 @@ class CatalogMachine(Machine):
             raise Violation('raises', method,
                             f'{method}({arg}) on rows {a.rows} raised '
                             f'{out!r}')
+        if method == 'fluxfrac_radius' and arg == 1.0:
+            st.pending = ('fluxfrac', st.actors.index(a))
         if method == 'fluxfrac_radius':
             outs = {name: out} if name else {}
         else:
